@@ -3,7 +3,7 @@
    semantics of Model/PyIRD.v, gives exactly the model's result - state, outcome and warnings. *)
 From Coq Require Import String ZArith List Bool Lia.
 From XV Require Import Base.Label Base.LSet Base.ODict Base.Attr Base.Outcome Model.Hypergraph Model.DiHypergraph Model.PyIR Model.PyIRD
-     Gen.DiMutators Proofs.HgViews Proofs.HgInv Proofs.HgInvOps Proofs.HgErrors Proofs.DiInv Proofs.MutatorSource.
+     Gen.DiMutators Proofs.HgViews Proofs.HgInv Proofs.HgInvOps Proofs.HgErrors Proofs.DiInv Proofs.IRLemmas.
 Import ListNotations.
 Open Scope Z_scope.
 
@@ -112,7 +112,7 @@ Proof. reflexivity. Qed.
 Ltac dhgs := unfold dwith_loop, dwith_sides, dwith_local, dwith_uid_var;
   cbn [h_node h_nattr h_edge h_eattr h_net h_uid with_node with_nattr with_edge with_eattr with_uid with_net ts hs
        tab set_tab atab set_atab dtab set_dtab tail_side dveval seval
-       de_args de_flags de_dir de_attr de_ids de_loop de_loop1 de_ed de_nd de_local de_x dx_tail dx_head dx_idx dx_uid nth fst snd].
+       de_args de_flags de_dir de_attr de_ids de_loop de_loop1 de_ed de_nd de_local de_x dx_tail dx_head dx_idx dx_uid dx_eattr nth fst snd].
 Ltac dstep := rewrite ?dexec_list_cons, ?dexec_list_nil, ?dexec_if, ?dexec_newpair, ?dexec_newattr, ?dexec_add, ?dexec_remove,
                       ?dexec_del, ?dexec_delattr, ?dexec_uid, ?dexec_raise, ?dexec_attrupdate; cbn [dbeval]; dhgs; cbn [negb andb];
               repeat match goal with H : is_none _ = false |- _ => rewrite H end.
@@ -482,12 +482,12 @@ Proof. unfold ensure_node. destruct (has x (h_node s)); reflexivity. Qed.
 Lemma attach_has_edge' e x s : has e (h_edge (attach e s x)) = true.
 Proof. unfold attach, edge_add. cbn [h_edge with_edge]. unfold has. rewrite get_set_same. reflexivity. Qed.
 
-Lemma member_step e x (tside : bool) en d :
+Lemma member_step k e x (tside : bool) en d :
   is_none x = false -> has e (h_edge (ts d)) = true -> has x (h_node (hs d)) = has x (h_node (ts d)) ->
-  dveval VLoop en = x -> dveval VUid en = e ->
+  dveval VLoop en = x -> dveval k en = e ->
   dexec_list [DIf (DNot (DIn VLoop TNode)) [DNewPair TNode VLoop; DNewAttr TNode VLoop] [];
-              DAdd TNode VLoop (SConst (if tside then SdOut else SdIn)) VUid;
-              DAdd TEdge VUid (SConst (if tside then SdIn else SdOut)) VLoop] en d
+              DAdd TNode VLoop (SConst (if tside then SdOut else SdIn)) k;
+              DAdd TEdge k (SConst (if tside then SdIn else SdOut)) VLoop] en d
   = ((if tside then mkD (attach e (ts d) x) (ensure_node x (hs d)) else mkD (ensure_node x (ts d)) (attach e (hs d) x)), Ok).
 Proof.
   intros Nx He Hag Vl Vu.
@@ -506,15 +506,15 @@ Proof.
     unfold d1, both, attach, edge_add, node_add; cbn [ts hs h_node h_edge with_node with_edge]; reflexivity.
 Qed.
 
-Lemma tail_loop_ok e en : (forall x, dveval VLoop (dwith_loop en x) = x) -> (forall x, dveval VUid (dwith_loop en x) = e) ->
+Lemma tail_loop_ok k e en : (forall x, dveval VLoop (dwith_loop en x) = x) -> (forall x, dveval k (dwith_loop en x) = e) ->
   forall xs d, (forall x, In x xs -> is_none x = false) -> has e (h_edge (ts d)) = true ->
   (forall y, has y (h_node (hs d)) = has y (h_node (ts d))) ->
   diter [DIf (DNot (DIn VLoop TNode)) [DNewPair TNode VLoop; DNewAttr TNode VLoop] [];
-         DAdd TNode VLoop (SConst SdOut) VUid; DAdd TEdge VUid (SConst SdIn) VLoop] en xs d
+         DAdd TNode VLoop (SConst SdOut) k; DAdd TEdge k (SConst SdIn) VLoop] en xs d
   = (mkD (fold_left (attach e) xs (ts d)) (ensure_nodes xs (hs d)), Ok).
 Proof.
   intros Vl Vu. induction xs as [|x xs IH]; intros d Hn He Hag; [destruct d; reflexivity|]. cbn [diter].
-  rewrite (member_step e x true (dwith_loop en x) d (Hn x (or_introl eq_refl)) He (Hag x) (Vl x) (Vu x)).
+  rewrite (member_step k e x true (dwith_loop en x) d (Hn x (or_introl eq_refl)) He (Hag x) (Vl x) (Vu x)).
   rewrite IH.
   - reflexivity.
   - intros y Hy. apply Hn. right. exact Hy.
@@ -522,15 +522,15 @@ Proof.
   - intro y. cbn [ts hs]. rewrite has_ensure_node, has_attach_node, Hag. reflexivity.
 Qed.
 
-Lemma head_loop_ok e en : (forall x, dveval VLoop (dwith_loop en x) = x) -> (forall x, dveval VUid (dwith_loop en x) = e) ->
+Lemma head_loop_ok k e en : (forall x, dveval VLoop (dwith_loop en x) = x) -> (forall x, dveval k (dwith_loop en x) = e) ->
   forall xs d, (forall x, In x xs -> is_none x = false) -> has e (h_edge (ts d)) = true ->
   (forall y, has y (h_node (hs d)) = has y (h_node (ts d))) ->
   diter [DIf (DNot (DIn VLoop TNode)) [DNewPair TNode VLoop; DNewAttr TNode VLoop] [];
-         DAdd TNode VLoop (SConst SdIn) VUid; DAdd TEdge VUid (SConst SdOut) VLoop] en xs d
+         DAdd TNode VLoop (SConst SdIn) k; DAdd TEdge k (SConst SdOut) VLoop] en xs d
   = (mkD (ensure_nodes xs (ts d)) (fold_left (attach e) xs (hs d)), Ok).
 Proof.
   intros Vl Vu. induction xs as [|x xs IH]; intros d Hn He Hag; [destruct d; reflexivity|]. cbn [diter].
-  rewrite (member_step e x false (dwith_loop en x) d (Hn x (or_introl eq_refl)) He (Hag x) (Vl x) (Vu x)).
+  rewrite (member_step k e x false (dwith_loop en x) d (Hn x (or_introl eq_refl)) He (Hag x) (Vl x) (Vu x)).
   rewrite IH.
   - reflexivity.
   - intros y Hy. apply Hn. right. exact Hy.
@@ -586,11 +586,11 @@ Lemma d_add_edge_body_ok (explicit : bool) u tl hd ix a d0 :
   is_none u = false -> has_none tl = false -> has_none hd = false ->
   (forall y, has y (h_node (hs d0)) = has y (h_node (ts d0))) ->
   (explicit = true -> ix = Some u) -> (explicit = false -> ix = None) ->
-  dexec_list dsrc_add_edge (mkDEnv [] [] DirInvalid a [] LNone LNone SdIn SdOut ([], []) (mkDExt tl hd ix u)) d0 =
+  dexec_list dsrc_add_edge (mkDEnv [] [] DirInvalid a [] LNone LNone SdIn SdOut ([], []) (mkDExt tl hd ix u [])) d0 =
   (d_insert_edge explicit u tl hd a d0, Ok).
 Proof.
   intros Nu Nt Nh Hag Hex Hau. unfold dsrc_add_edge.
-  set (en := mkDEnv [] [] DirInvalid a [] LNone LNone SdIn SdOut ([], []) (mkDExt tl hd ix u)).
+  set (en := mkDEnv [] [] DirInvalid a [] LNone LNone SdIn SdOut ([], []) (mkDExt tl hd ix u [])).
   assert (Htl : forall x, In x tl -> is_none x = false).
   { intros x Hx. destruct (is_none x) eqn:E; [|reflexivity]. exfalso.
     assert (has_none tl = true) by (apply existsb_exists; exists x; split; assumption). congruence. }
@@ -600,13 +600,13 @@ Proof.
   rewrite dexec_list_cons, dexec_newpair. change (dveval VUid en) with u. rewrite Nu. cbn [tab set_tab].
   set (t1 := with_edge (ts d0) (set u [] (h_edge (ts d0)))). set (h1 := with_edge (hs d0) (set u [] (h_edge (hs d0)))).
   rewrite dexec_list_cons, dexec_fortail. change (dx_tail (de_x en)) with tl.
-  rewrite (tail_loop_ok u en (fun x => eq_refl) (fun x => eq_refl) tl (mkD t1 h1) Htl).
+  rewrite (tail_loop_ok VUid u en (fun x => eq_refl) (fun x => eq_refl) tl (mkD t1 h1) Htl).
   2:{ unfold t1, has. cbn [ts h_edge with_edge]. rewrite get_set_same. reflexivity. }
   2:{ intro y. exact (Hag y). }
   cbn [ts hs].
   set (t2 := fold_left (attach u) tl t1). set (h2 := ensure_nodes tl h1).
   rewrite dexec_list_cons, dexec_forhead. change (dx_head (de_x en)) with hd.
-  rewrite (head_loop_ok u en (fun x => eq_refl) (fun x => eq_refl) hd (mkD t2 h2) Hhd).
+  rewrite (head_loop_ok VUid u en (fun x => eq_refl) (fun x => eq_refl) hd (mkD t2 h2) Hhd).
   2:{ cbn [ts]. unfold t2. apply fold_attach_has_edge'. unfold t1, has. cbn [h_edge with_edge]. rewrite get_set_same. reflexivity. }
   2:{ intro y. cbn [ts hs]. unfold t2, h2. rewrite ensure_nodes_has, fold_attach_has. unfold t1, h1. cbn [h_node with_edge]. rewrite Hag. reflexivity. }
   cbn [ts hs].
@@ -637,12 +637,265 @@ Proof.
   cbn [run_dguards dbeval de_x dx_tail dx_head]. fold (has_none tl). fold (has_none hd).
   destruct (has_none tl) eqn:Nt; [reflexivity|]. destruct (has_none hd) eqn:Nh; [reflexivity|]. cbn [orb].
   destruct idx as [i|].
-  - unfold dwith_uid_var; cbn [de_x dx_idx dx_tail dx_head tab de_args de_flags de_dir de_attr de_ids de_loop de_loop1 de_ed de_nd de_local].
+  - unfold dwith_uid_var; cbn [de_x dx_idx dx_tail dx_head dx_eattr tab de_args de_flags de_dir de_attr de_ids de_loop de_loop1 de_ed de_nd de_local].
     destruct (has i (h_edge (ts d))) eqn:Hh; [reflexivity|].
     assert (Ni : is_none i = false) by (destruct i; try reflexivity; exfalso; apply Hi; reflexivity).
     rewrite (d_add_edge_body_ok true i tl hd (Some i) a d Ni Nt Nh (fun y => agree_has_node d y Ag) (fun _ => eq_refl)); [reflexivity|discriminate].
-  - unfold dwith_uid_var; cbn [de_x dx_idx dx_tail dx_head tab de_args de_flags de_dir de_attr de_ids de_loop de_loop1 de_ed de_nd de_local].
+  - unfold dwith_uid_var; cbn [de_x dx_idx dx_tail dx_head dx_eattr tab de_args de_flags de_dir de_attr de_ids de_loop de_loop1 de_ed de_nd de_local].
     unfold both at 1. cbn [ts h_edge with_uid]. rewrite Hnone.
     rewrite (d_add_edge_body_ok false (LInt (h_uid (ts d))) tl hd None a _ eq_refl Nt Nh); [reflexivity| |discriminate|reflexivity].
     intro y. unfold both. cbn [ts hs h_node with_uid]. apply agree_has_node. exact Ag.
+Qed.
+
+(* ---------- add_edges_from, formats 1-4: the item ---------- *)
+Lemma dexec_setpair k en d : dexec (DSetPair k) en d =
+  if is_none (dveval k en) then (d, Raised XGIError)
+  else (mkD (with_edge (ts d) (set (dveval k en) (mkset (dx_tail (de_x en))) (h_edge (ts d))))
+            (with_edge (hs d) (set (dveval k en) (mkset (dx_head (de_x en))) (h_edge (hs d)))), Ok).
+Proof. reflexivity. Qed.
+Lemma dexec_attrupdateitem t k en d : dexec (DAttrUpdateItem t k) en d =
+  match get (dveval k en) (atab t (ts d)) with
+  | Some a => (mkD (set_atab t (ts d) (set (dveval k en) (aupdate a (dx_eattr (de_x en))) (atab t (ts d)))) (hs d), Ok)
+  | None => (d, Raised IDNotFound)
+  end.
+Proof. reflexivity. Qed.
+
+(* adding the members again to a set that already holds them changes nothing *)
+Lemma fold_sadd_absorb : forall xs acc, (forall x, In x xs -> In x acc) -> fold_left (fun a x => sadd x a) xs acc = acc.
+Proof.
+  induction xs as [|x xs IH]; intros acc H; [reflexivity|]. cbn [fold_left].
+  assert (E : sadd x acc = acc).
+  { unfold sadd. assert (M : mem x acc = true) by (apply mem_In; apply H; left; reflexivity). rewrite M. reflexivity. }
+  rewrite E. apply IH. intros y Hy. apply H. right. exact Hy.
+Qed.
+Lemma fold_attach_prefilled e ms s :
+  fold_left (attach e) ms (with_edge s (set e (mkset ms) (h_edge s))) =
+  fold_left (attach e) ms (with_edge s (set e [] (h_edge s))).
+Proof.
+  rewrite (fold_attach_split e ms (with_edge s (set e (mkset ms) (h_edge s))) (mkset ms)) by (cbn [h_edge with_edge]; apply get_set_same).
+  rewrite (fold_attach_split e ms (with_edge s (set e [] (h_edge s))) []) by (cbn [h_edge with_edge]; apply get_set_same).
+  rewrite !fold_nstep_with_edge. cbn [h_edge with_edge]. rewrite !with_edge_with_edge, !set_set_same.
+  rewrite (fold_sadd_absorb ms (mkset ms)) by (intros x Hx; apply In_mkset; exact Hx). reflexivity.
+Qed.
+
+Lemma d_bulk_body_ok (explicit : bool) u tl hd a ea d0 :
+  is_none u = false -> has_none tl = false -> has_none hd = false ->
+  (forall y, has y (h_node (hs d0)) = has y (h_node (ts d0))) -> NoDup (map fst a) ->
+  dexec_list dsrc_bulk_item (mkDEnv [] [explicit] DirInvalid a [] LNone LNone SdIn SdOut ([], []) (mkDExt tl hd (Some u) LNone ea)) d0 =
+  (d_insert_edge explicit u tl hd (aupdate a ea) d0, Ok).
+Proof.
+  intros Nu Nt Nh Hag NDa. unfold dsrc_bulk_item.
+  set (en := mkDEnv [] [explicit] DirInvalid a [] LNone LNone SdIn SdOut ([], []) (mkDExt tl hd (Some u) LNone ea)).
+  assert (Htl : forall x, In x tl -> is_none x = false).
+  { intros x Hx. destruct (is_none x) eqn:E; [|reflexivity]. exfalso.
+    assert (has_none tl = true) by (apply existsb_exists; exists x; split; assumption). congruence. }
+  assert (Hhd : forall x, In x hd -> is_none x = false).
+  { intros x Hx. destruct (is_none x) eqn:E; [|reflexivity]. exfalso.
+    assert (has_none hd = true) by (apply existsb_exists; exists x; split; assumption). congruence. }
+  rewrite dexec_list_cons, dexec_setpair. change (dveval VIdx en) with u. rewrite Nu.
+  change (dx_tail (de_x en)) with tl. change (dx_head (de_x en)) with hd.
+  set (t1 := with_edge (ts d0) (set u (mkset tl) (h_edge (ts d0)))). set (h1 := with_edge (hs d0) (set u (mkset hd) (h_edge (hs d0)))).
+  rewrite dexec_list_cons, dexec_fortail. change (dx_tail (de_x en)) with tl.
+  rewrite (tail_loop_ok VIdx u en (fun x => eq_refl) (fun x => eq_refl) tl (mkD t1 h1) Htl).
+  2:{ unfold t1, has. cbn [ts h_edge with_edge]. rewrite get_set_same. reflexivity. }
+  2:{ intro y. exact (Hag y). }
+  cbn [ts hs].
+  set (t2 := fold_left (attach u) tl t1). set (h2 := ensure_nodes tl h1).
+  rewrite dexec_list_cons, dexec_forhead. change (dx_head (de_x en)) with hd.
+  rewrite (head_loop_ok VIdx u en (fun x => eq_refl) (fun x => eq_refl) hd (mkD t2 h2) Hhd).
+  2:{ cbn [ts]. unfold t2. apply fold_attach_has_edge'. unfold t1, has. cbn [h_edge with_edge]. rewrite get_set_same. reflexivity. }
+  2:{ intro y. cbn [ts hs]. unfold t2, h2. rewrite ensure_nodes_has, fold_attach_has. unfold t1, h1. cbn [h_node with_edge]. rewrite Hag. reflexivity. }
+  cbn [ts hs].
+  set (t3 := ensure_nodes hd t2). set (h3 := fold_left (attach u) hd h2).
+  rewrite dexec_list_cons, dexec_newattr. change (dveval VIdx en) with u. rewrite Nu. cbn [atab set_atab ts hs].
+  rewrite dexec_list_cons, dexec_attrupdate. change (dveval VIdx en) with u. cbn [atab set_atab ts hs h_eattr with_eattr de_attr].
+  rewrite get_set_same, set_set_same.
+  rewrite dexec_list_cons, dexec_attrupdateitem. change (dveval VIdx en) with u. cbn [atab set_atab ts hs h_eattr with_eattr].
+  rewrite get_set_same, set_set_same. change (de_attr en) with a. change (dx_eattr (de_x en)) with ea.
+  assert (Ea : aupdate (aupdate [] a) ea = aupdate [] (aupdate a ea)).
+  { rewrite (aupdate_nil_id a NDa). symmetry. apply aupdate_nil_id. apply aupdate_keys_nodup. exact NDa. }
+  rewrite Ea.
+  rewrite dexec_list_cons, dexec_if. cbn [dbeval]. change (nth 0 (de_flags en) false) with explicit.
+  (* the model's state, brought to the same shape *)
+  assert (Ets : ensure_nodes hd (insert_edge u tl (aupdate a ea) (ts d0)) = with_eattr t3 (set u (aupdate [] (aupdate a ea)) (h_eattr t3))).
+  { unfold insert_edge. rewrite <- fold_attach_prefilled. fold t1. fold t2. rewrite ensure_nodes_with_eattr. fold t3. unfold t3.
+    rewrite ensure_nodes_h_eattr. reflexivity. }
+  assert (Ehs : insert_edge u hd [] (ensure_nodes tl (hs d0)) = with_eattr h3 (set u [] (h_eattr h3))).
+  { unfold insert_edge. rewrite <- fold_attach_prefilled. rewrite ensure_nodes_h_edge.
+    assert (X : with_edge (ensure_nodes tl (hs d0)) (set u (mkset hd) (h_edge (hs d0))) = h2) by (unfold h2, h1; rewrite ensure_nodes_with_edge; reflexivity).
+    rewrite X. fold h3. reflexivity. }
+  unfold d_insert_edge. destruct explicit.
+  - rewrite dexec_list_cons, dexec_uid, !dexec_list_nil. change (dveval VIdx en) with u. unfold both. cbn [ts hs].
+    rewrite ensure_nodes_bump, Ets, Ehs. reflexivity.
+  - rewrite !dexec_list_nil. rewrite Ets, Ehs. reflexivity.
+Qed.
+
+Theorem d_bulk_item_is_source explicit a tl hd idx ea d : DInv d -> NoDup (map fst a) ->
+  run_dbulk_item dsrc_bulk_item_guards dsrc_bulk_item explicit a tl hd idx ea d = d_bulk_item explicit a d tl hd idx ea.
+Proof.
+  intros (I1 & I2 & Ag) NDa. unfold run_dbulk_item, dsrc_bulk_item_guards, d_bulk_item.
+  cbn [run_dguards dbeval de_x dx_idx dx_tail dx_head tab]. fold (has_none tl). fold (has_none hd).
+  destruct (has idx (h_edge (ts d))) eqn:Hh; [reflexivity|].
+  destruct (has_none tl) eqn:Nt; [reflexivity|]. destruct (has_none hd) eqn:Nh; [reflexivity|]. cbn [orb].
+  destruct (is_none idx) eqn:Ni.
+  - unfold dsrc_bulk_item. rewrite dexec_list_cons, dexec_setpair. cbn [dveval de_x dx_idx]. rewrite Ni. reflexivity.
+  - rewrite (d_bulk_body_ok explicit idx tl hd a ea d Ni Nt Nh (fun y => agree_has_node d y Ag) NDa). reflexivity.
+Qed.
+
+(* the four formats, with the dispatch table read from the source *)
+Theorem d_add_edges_from_items_is_source a d : NoDup (map fst a) -> DInv d ->
+  (forall l, run_dbulk dsrc_bulk_formats 0 dsrc_bulk_item_guards dsrc_bulk_item a (map (fun m => (fst m, snd m, LNone, [])) l) d = d_add_edges_from (DB1 l) a d) /\
+  (forall l, run_dbulk dsrc_bulk_formats 1 dsrc_bulk_item_guards dsrc_bulk_item a (map (fun m => (fst (fst m), snd (fst m), snd m, [])) l) d = d_add_edges_from (DB2 l) a d) /\
+  (forall l, run_dbulk dsrc_bulk_formats 2 dsrc_bulk_item_guards dsrc_bulk_item a (map (fun m => (fst (fst m), snd (fst m), LNone, snd m)) l) d = d_add_edges_from (DB3 l) a d) /\
+  (forall l, run_dbulk dsrc_bulk_formats 3 dsrc_bulk_item_guards dsrc_bulk_item a l d = d_add_edges_from (DB4 l) a d).
+Proof.
+  intros NDa.
+  (* two loops that agree on every state with the invariant agree, because each item keeps the invariant *)
+  assert (L : forall A (f g : dhg -> A -> dres) (l : list A), (forall d1 x, DInv d1 -> f d1 x = g d1 x) ->
+              (forall d1 x, DInv d1 -> DInv (dst_of (g d1 x))) -> forall d0, DInv d0 -> dloop f l d0 = dloop g l d0).
+  { intros A f g l Hfg Hinv. induction l as [|x l IH]; intros d0 I0; [reflexivity|]. cbn [dloop]. rewrite (Hfg d0 x I0).
+    pose proof (Hinv d0 x I0) as I1. destruct (g d0 x) as [[d1 o] w]. unfold dst_of in I1. cbn [fst] in I1.
+    destruct o; [rewrite (IH d1 I1)|]; reflexivity. }
+  assert (M : forall A B (h : A -> B) (f : dhg -> B -> dres) (l : list A) d0, dloop f (map h l) d0 = dloop (fun d x => f d (h x)) l d0).
+  { intros A B h f l. induction l as [|x l IH]; intro d0; [reflexivity|]. cbn [map dloop].
+    destruct (f d0 (h x)) as [[d1 o] w]. destruct o; [rewrite IH|]; reflexivity. }
+  intro I. unfold run_dbulk, dsrc_bulk_formats, d_add_edges_from. cbn [nth]. repeat split; intro l.
+  - rewrite M. apply L; [| |exact I].
+    + intros d1 [tl hd] I1. cbn [fst snd]. apply d_bulk_item_is_source; [apply DInv_next; exact I1|exact NDa].
+    + intros d1 [tl hd] I1. apply DInv_bulk_auto. exact I1.
+  - rewrite M. apply L; [| |exact I].
+    + intros d1 [[tl hd] i] I1. cbn [fst snd]. apply d_bulk_item_is_source; assumption.
+    + intros d1 [[tl hd] i] I1. apply DInv_bulk_explicit. exact I1.
+  - rewrite M. apply L; [| |exact I].
+    + intros d1 [[tl hd] ea] I1. cbn [fst snd]. apply d_bulk_item_is_source; [apply DInv_next; exact I1|exact NDa].
+    + intros d1 [[tl hd] ea] I1. apply DInv_bulk_auto. exact I1.
+  - apply L; [| |exact I].
+    + intros d1 [[[tl hd] i] ea] I1. apply d_bulk_item_is_source; assumption.
+    + intros d1 [[[tl hd] i] ea] I1. apply DInv_bulk_explicit. exact I1.
+Qed.
+
+(* ---------- add_edges_from, the dict format: the item ---------- *)
+Lemma has_nstep_node e y x s : has y (h_node (nstep e s x)) = lbl_eqb y x || has y (h_node s).
+Proof.
+  unfold nstep, node_add. cbn [h_node with_node]. unfold has at 1. rewrite get_set.
+  destruct (lbl_eqb y x) eqn:E; [reflexivity|]. fold (has y (h_node (ensure_node x s))). rewrite has_ensure_node, E. reflexivity.
+Qed.
+
+Lemma member_nstep k e x (tside : bool) en d :
+  is_none x = false -> has x (h_node (hs d)) = has x (h_node (ts d)) ->
+  dveval VLoop en = x -> dveval k en = e ->
+  dexec_list [DIf (DNot (DIn VLoop TNode)) [DNewPair TNode VLoop; DNewAttr TNode VLoop] [];
+              DAdd TNode VLoop (SConst (if tside then SdOut else SdIn)) k] en d
+  = ((if tside then mkD (nstep e (ts d) x) (ensure_node x (hs d)) else mkD (ensure_node x (ts d)) (nstep e (hs d) x)), Ok).
+Proof.
+  intros Nx Hag Vl Vu.
+  assert (Step1 : dexec (DIf (DNot (DIn VLoop TNode)) [DNewPair TNode VLoop; DNewAttr TNode VLoop] []) en d = (both (ensure_node x) d, Ok)).
+  { rewrite dexec_if. cbn [dbeval tab]. rewrite Vl. unfold both, ensure_node. rewrite Hag.
+    destruct (has x (h_node (ts d))) eqn:Hx; cbn [negb].
+    - rewrite dexec_list_nil. destruct d; reflexivity.
+    - rewrite dexec_list_cons, dexec_newpair, Vl, Nx. rewrite dexec_list_cons, dexec_newattr, Vl, Nx. rewrite dexec_list_nil. reflexivity. }
+  rewrite dexec_list_cons, Step1.
+  set (d1 := both (ensure_node x) d).
+  assert (H1 : has x (h_node (ts d1)) = true) by (unfold d1, both; cbn [ts]; rewrite has_ensure_node, lbl_eqb_refl; reflexivity).
+  rewrite dexec_list_cons, dexec_add. cbn [tab seval]. rewrite Vl, Vu, H1, dexec_list_nil.
+  destruct tside; cbn [set_dtab dtab tail_side tab set_tab ts hs];
+    unfold d1, both, nstep, node_add; cbn [ts hs h_node with_node]; reflexivity.
+Qed.
+
+Lemma tail_nstep_loop_ok k e en : (forall x, dveval VLoop (dwith_loop en x) = x) -> (forall x, dveval k (dwith_loop en x) = e) ->
+  forall xs d, (forall x, In x xs -> is_none x = false) -> (forall y, has y (h_node (hs d)) = has y (h_node (ts d))) ->
+  diter [DIf (DNot (DIn VLoop TNode)) [DNewPair TNode VLoop; DNewAttr TNode VLoop] []; DAdd TNode VLoop (SConst SdOut) k] en xs d
+  = (mkD (fold_left (nstep e) xs (ts d)) (ensure_nodes xs (hs d)), Ok).
+Proof.
+  intros Vl Vu. induction xs as [|x xs IH]; intros d Hn Hag; [destruct d; reflexivity|]. cbn [diter].
+  rewrite (member_nstep k e x true (dwith_loop en x) d (Hn x (or_introl eq_refl)) (Hag x) (Vl x) (Vu x)).
+  rewrite IH; [reflexivity| |].
+  - intros y Hy. apply Hn. right. exact Hy.
+  - intro y. cbn [ts hs]. rewrite has_ensure_node, has_nstep_node, Hag. reflexivity.
+Qed.
+Lemma head_nstep_loop_ok k e en : (forall x, dveval VLoop (dwith_loop en x) = x) -> (forall x, dveval k (dwith_loop en x) = e) ->
+  forall xs d, (forall x, In x xs -> is_none x = false) -> (forall y, has y (h_node (hs d)) = has y (h_node (ts d))) ->
+  diter [DIf (DNot (DIn VLoop TNode)) [DNewPair TNode VLoop; DNewAttr TNode VLoop] []; DAdd TNode VLoop (SConst SdIn) k] en xs d
+  = (mkD (ensure_nodes xs (ts d)) (fold_left (nstep e) xs (hs d)), Ok).
+Proof.
+  intros Vl Vu. induction xs as [|x xs IH]; intros d Hn Hag; [destruct d; reflexivity|]. cbn [diter].
+  rewrite (member_nstep k e x false (dwith_loop en x) d (Hn x (or_introl eq_refl)) (Hag x) (Vl x) (Vu x)).
+  rewrite IH; [reflexivity| |].
+  - intros y Hy. apply Hn. right. exact Hy.
+  - intro y. cbn [ts hs]. rewrite has_ensure_node, has_nstep_node, Hag. reflexivity.
+Qed.
+
+Lemma fold_nstep_has e y : forall xs s, has y (h_node (fold_left (nstep e) xs s)) = mem y xs || has y (h_node s).
+Proof.
+  induction xs as [|x xs IH]; intro s; [reflexivity|]. cbn [fold_left mem]. rewrite IH, has_nstep_node.
+  destruct (lbl_eqb y x), (mem y xs); reflexivity.
+Qed.
+Lemma nstep_with_eattr e x s v : nstep e (with_eattr s v) x = with_eattr (nstep e s x) v.
+Proof. unfold nstep, node_add, ensure_node. cbn [h_node with_eattr]. destruct (has x (h_node s)); reflexivity. Qed.
+Lemma fold_nstep_with_eattr e v : forall xs s, fold_left (nstep e) xs (with_eattr s v) = with_eattr (fold_left (nstep e) xs s) v.
+Proof. induction xs as [|x xs IH]; intro s; [reflexivity|]. cbn [fold_left]. rewrite nstep_with_eattr. apply IH. Qed.
+
+Lemma d_dict_body_ok u tl hd d0 :
+  is_none u = false -> has_none tl = false -> has_none hd = false ->
+  (forall y, has y (h_node (hs d0)) = has y (h_node (ts d0))) ->
+  dexec_list dsrc_dict_item (mkDEnv [] [true] DirInvalid [] [] LNone LNone SdIn SdOut ([], []) (mkDExt tl hd (Some u) LNone [])) d0 =
+  (d_insert_edge true u tl hd [] d0, Ok).
+Proof.
+  intros Nu Nt Nh Hag. unfold dsrc_dict_item.
+  set (en := mkDEnv [] [true] DirInvalid [] [] LNone LNone SdIn SdOut ([], []) (mkDExt tl hd (Some u) LNone [])).
+  assert (Htl : forall x, In x tl -> is_none x = false).
+  { intros x Hx. destruct (is_none x) eqn:E; [|reflexivity]. exfalso.
+    assert (has_none tl = true) by (apply existsb_exists; exists x; split; assumption). congruence. }
+  assert (Hhd : forall x, In x hd -> is_none x = false).
+  { intros x Hx. destruct (is_none x) eqn:E; [|reflexivity]. exfalso.
+    assert (has_none hd = true) by (apply existsb_exists; exists x; split; assumption). congruence. }
+  rewrite dexec_list_cons, dexec_setpair. change (dveval VIdx en) with u. rewrite Nu.
+  change (dx_tail (de_x en)) with tl. change (dx_head (de_x en)) with hd.
+  set (t1 := with_edge (ts d0) (set u (mkset tl) (h_edge (ts d0)))). set (h1 := with_edge (hs d0) (set u (mkset hd) (h_edge (hs d0)))).
+  rewrite dexec_list_cons, dexec_fortail. change (dx_tail (de_x en)) with tl.
+  rewrite (tail_nstep_loop_ok VIdx u en (fun x => eq_refl) (fun x => eq_refl) tl (mkD t1 h1) Htl) by (intro y; exact (Hag y)).
+  cbn [ts hs].
+  set (t2 := fold_left (nstep u) tl t1). set (h2 := ensure_nodes tl h1).
+  rewrite dexec_list_cons, dexec_newattr. change (dveval VIdx en) with u. rewrite Nu. cbn [atab set_atab ts hs].
+  rewrite dexec_list_cons, dexec_forhead. change (dx_head (de_x en)) with hd.
+  rewrite (head_nstep_loop_ok VIdx u en (fun x => eq_refl) (fun x => eq_refl) hd _ Hhd).
+  2:{ intro y. cbn [ts hs h_node with_eattr]. unfold t2, h2. rewrite ensure_nodes_has, fold_nstep_has. unfold t1, h1. cbn [h_node with_edge]. rewrite Hag. reflexivity. }
+  cbn [ts hs].
+  rewrite dexec_list_cons, dexec_uid, !dexec_list_nil. change (dveval VIdx en) with u. unfold both. cbn [ts hs].
+  unfold d_insert_edge. rewrite !insert_edge_as_nstep'. f_equal. f_equal.
+  - (* tail side *)
+    rewrite ensure_nodes_bump. f_equal. f_equal.
+    unfold t2, t1. rewrite fold_nstep_with_edge, h_eattr_with_edge, fold_nstep_h_eattr. reflexivity.
+  - (* head side *)
+    f_equal. rewrite fold_nstep_with_eattr. unfold h2, h1.
+    rewrite ensure_nodes_with_edge, fold_nstep_with_edge, h_eattr_with_edge, ensure_nodes_h_edge. reflexivity.
+Qed.
+
+Theorem d_add_edges_from_dict_is_source a : forall l d, DInv d ->
+  run_ditems dsrc_dict_item_guards dsrc_dict_item l d = d_add_edges_from (DB5 l) a d.
+Proof.
+  unfold run_ditems, d_add_edges_from.
+  induction l as [|[idx [tl hd]] l IH]; intros d I; [reflexivity|]. cbn [dloop fst snd].
+  assert (Item : run_dbulk_item dsrc_dict_item_guards dsrc_dict_item true [] tl hd idx [] d =
+                 (if has idx (h_edge (ts d)) then dwarn1 d
+                  else if has_none tl || has_none hd then draise d XGIError
+                  else if is_none idx then draise d XGIError
+                  else dok (d_insert_edge true idx tl hd [] d))).
+  { destruct I as (I1 & I2 & Ag). unfold run_dbulk_item, dsrc_dict_item_guards.
+    cbn [run_dguards dbeval de_x dx_idx dx_tail dx_head tab]. fold (has_none tl). fold (has_none hd).
+    destruct (has idx (h_edge (ts d))) eqn:Hh; [reflexivity|].
+    destruct (has_none tl) eqn:Nt; [reflexivity|]. destruct (has_none hd) eqn:Nh; [reflexivity|]. cbn [orb].
+    destruct (is_none idx) eqn:Ni.
+    - unfold dsrc_dict_item. rewrite dexec_list_cons, dexec_setpair. cbn [dveval de_x dx_idx]. rewrite Ni. reflexivity.
+    - rewrite (d_dict_body_ok idx tl hd d Ni Nt Nh (fun y => agree_has_node d y Ag)). reflexivity. }
+  rewrite Item.
+  assert (I' : DInv (dst_of (if has idx (h_edge (ts d)) then dwarn1 d
+                  else if has_none tl || has_none hd then draise d XGIError
+                  else if is_none idx then draise d XGIError
+                  else dok (d_insert_edge true idx tl hd [] d)))).
+  { destruct (has idx (h_edge (ts d))) eqn:Hh; [exact I|]. destruct (has_none tl || has_none hd); [exact I|].
+    destruct (is_none idx); [exact I|]. unfold dst_of, dok. cbn [fst]. apply DInv_insert_explicit; [|exact I].
+    apply has_false_nin. exact Hh. }
+  destruct (if has idx (h_edge (ts d)) then dwarn1 d else _) as [[d1 o1] w1]. unfold dst_of in I'. cbn [fst] in I'.
+  destruct o1 as [|x]; [|reflexivity]. rewrite (IH d1 I'). reflexivity.
 Qed.
